@@ -18,8 +18,13 @@ from concurrent.futures import ProcessPoolExecutor
 
 import z3
 
-Z3_TIMEOUT_MS = int(os.environ.get("PYVC_Z3_MS", "30000"))
-CLI_TIMEOUT_S = int(os.environ.get("PYVC_CLI_S", "10"))
+# The in-process z3 queries are bounded by z3's deterministic resource counter (rlimit), not by wall-clock time, so that a verdict
+# does not flip when all cores are busy; the wall-clock timeout is only a generous safety net (about 1e6 rlimit units per second
+# on an idle core of this sandbox).
+Z3_RLIMIT = int(os.environ.get("PYVC_Z3_RLIMIT", "30000000"))
+Z3_REFUTE_RLIMIT = int(os.environ.get("PYVC_Z3_REFUTE_RLIMIT", "25000000"))
+Z3_TIMEOUT_MS = int(os.environ.get("PYVC_Z3_MS", "300000"))
+CLI_TIMEOUT_S = int(os.environ.get("PYVC_CLI_S", "20"))
 
 
 def _cli(cmd, text, timeout):
@@ -60,10 +65,11 @@ def model_text(m, limit=6000):
     return t[:limit]
 
 
-def _fresh_check(text, timeout_ms, seed=0):
+def _fresh_check(text, timeout_ms, seed=0, rlimit=None):
     c = z3.Context()
     s = z3.Solver(ctx=c)
     s.set("timeout", timeout_ms)
+    s.set("rlimit", rlimit if rlimit is not None else Z3_RLIMIT)
     if seed:
         s.set("random_seed", seed % 1000)
     s.from_string(text)
@@ -73,6 +79,14 @@ def _fresh_check(text, timeout_ms, seed=0):
     res = str(r)
     mt = model_text(s.model()) if res == "sat" else None
     reason = s.reason_unknown() if res == "unknown" else ""
+    if os.environ.get("PYVC_RLIMIT_LOG"):
+        try:
+            st = s.statistics()
+            rl = next((st.get_key_value(k) for k in st.keys() if k == "rlimit count"), 0)
+            with open(os.environ["PYVC_RLIMIT_LOG"], "a") as f:
+                f.write(f"{res} {ms:.0f} {rl}\n")
+        except Exception:
+            pass
     return res, ms, mt, reason
 
 
@@ -97,7 +111,7 @@ def solve_text(args):
             if ft == text:
                 break
             try:
-                r2, ms2, mt2, _ = _fresh_check(ft, 5000, seed)
+                r2, ms2, mt2, _ = _fresh_check(ft, 60000, seed, Z3_REFUTE_RLIMIT)
             except z3.Z3Exception:
                 break
             if r2 == "sat":
@@ -109,12 +123,12 @@ def solve_text(args):
     if out == "unsat":
         return dict(status="discharged", backend="z3-4.8.12", ms=ms + (time.time() - t0) * 1000, model=None, detail="")
     if refute:
-        for k in (2, 3, 4):
+        for k in (4,):  # k = 2, 3 were tried above
             ft = finite_scope(text, k)
-            if ft == text and k > 2:
+            if ft == text:
                 break
             try:
-                r2, ms2, mt2, _ = _fresh_check(ft, 5000, seed)
+                r2, ms2, mt2, _ = _fresh_check(ft, 60000, seed, Z3_REFUTE_RLIMIT)
             except z3.Z3Exception:
                 break
             if r2 == "sat":
